@@ -195,6 +195,52 @@ def _f_default(group):
     return f
 
 
+def f_nested_defaults(sm):
+    """input-object default literals that OMIT fields which are non-null WITH a default of their own
+    (scalar, enum, list, nested input object `= {}`), at top level and nested, on arguments, input fields and
+    directive arguments: the literal is valid and the coerced default has the nested defaults filled in."""
+    ensure_enum(sm)
+    E = lambda n: ["enum", n]  # noqa: E731
+    _add_type(
+        sm,
+        mk_type(
+            "input",
+            "Page",
+            fields=[
+                mk_ival("size", "Int!", default=I(10)),
+                mk_ival("sort", "Color!", default=E("GREEN")),
+                mk_ival("tags", "[String!]!", default=["list", [["str", "a"]]]),
+                mk_ival("after", "String"),
+            ],
+        ),
+    )
+    _add_type(
+        sm,
+        mk_type(
+            "input",
+            "Filter",
+            fields=[
+                mk_ival("page", "Page!", default=["obj", []]),
+                mk_ival("n", "Int!", default=I(3)),
+                mk_ival("pages", "[Page!]!", default=["list", [["obj", []], ["obj", [["size", I(1)]]]]]),
+                mk_ival("q", "String"),
+            ],
+        ),
+    )
+    items = [
+        ("a", "Filter", ["obj", []]),
+        ("b", "Filter", ["obj", [["q", ["str", "x"]]]]),
+        ("c", "[Filter!]", ["list", [["obj", []]]]),
+        ("d", "Filter!", ["obj", [["page", ["obj", [["size", I(1)]]]]]]),
+        ("e", "Page", ["obj", []]),
+        ("f", "[Filter]", ["obj", [["n", I(4)]]]),
+    ]
+    _qfield(sm, mk_field("dNested", "Int", args=[mk_ival(n, t, default=lit) for n, t, lit in items]))
+    _add_type(sm, mk_type("input", "InNested", fields=[mk_ival(n, t, default=lit) for n, t, lit in items]))
+    _qfield(sm, mk_field("iNested", "Int", args=[mk_ival("v", "InNested", default=["obj", []])]))
+    sm["directives"].append(_dir("nested", ["FIELD"], [mk_ival("f", "Filter", default=["obj", []]), mk_ival("p", "Page!", default=["obj", [["sort", E("RED")]]])]))
+
+
 def f_dep_field(sm):
     _qfield(sm, mk_field("old1", "Int", deprecation={"reason": None}))
     _qfield(sm, mk_field("old2", "Int", args=[mk_ival("x", "Int")], deprecation={"reason": 'use "a" \\ instead'}))
@@ -499,6 +545,47 @@ def p_schema_names(sm):
     _rename(sm, "Subscription", "Sub")
 
 
+def _ensure_roots(sm):
+    if sm_type(sm, "Mutation") is None:
+        f_mutation(sm)
+    if sm_type(sm, "Subscription") is None:
+        f_subscription(sm)
+
+
+def p_roots_case(sm):
+    """every root named like the default up to case: query / MUTATION / subscription"""
+    _ensure_roots(sm)
+    sm["schema_def"] = True
+    _rename(sm, "Query", "query")
+    _rename(sm, "Mutation", "MUTATION")
+    _rename(sm, "Subscription", "subscription")
+
+
+def p_roots_query_renamed(sm):
+    """only the query root has a non-default name; mutation and subscription keep the default names"""
+    _ensure_roots(sm)
+    sm["schema_def"] = True
+    _rename(sm, "Query", "Root")
+
+
+def p_roots_nonroot_named(sm):
+    """types CALLED Mutation and Subscription that are not roots (only reachable as field types)"""
+    _add_type(sm, mk_type("object", "Mutation", fields=[mk_field("m", "Int")]))
+    _add_type(sm, mk_type("object", "Subscription", fields=[mk_field("s", "Int")]))
+    sm["roots"]["mutation"] = None
+    sm["roots"]["subscription"] = None
+    sm["schema_def"] = True
+    _qfield(sm, mk_field("notMutation", "Mutation"))
+    _qfield(sm, mk_field("notSubscription", "Subscription"))
+
+
+def p_roots_swapped(sm):
+    """the type called Subscription is the mutation root and vice versa"""
+    _ensure_roots(sm)
+    sm["schema_def"] = True
+    sm["roots"]["mutation"], sm["roots"]["subscription"] = "Subscription", "Mutation"
+
+
 # ---------------------------------------------------------------------------------------------
 # registry (order = order of application = enumeration order)
 
@@ -526,6 +613,7 @@ for _i, _w in enumerate(WRAPPERS):
     _reg("w:" + _w, _f_wrap(_i + 1, _w))
 for _g in DEFAULT_GROUPS:
     _reg("d:" + _g, _f_default(_g))
+_reg("d:nested-defaults", f_nested_defaults)
 _reg("dep:field", f_dep_field)
 _reg("dep:enum", f_dep_enum)
 _reg("dep:empty", f_dep_empty)
@@ -550,6 +638,11 @@ for _form in DESCRIPTIONS:
     _reg("desc:" + _form, _p_desc(_form), post=True)
 DESC_CARRIERS = ["k:obj", "k:iface", "k:union", "k:enum", "k:input", "k:scalar", "k:mutation", "dep:enum", "dir:def", "dir:applied"]
 STRING_CARRIERS = ["dir:applied", "schema:names"]
+ROOT_CARRIERS = ["k:obj", "dir:applied", "desc:one"]
+_reg("roots:case", p_roots_case, post=True, extra=ROOT_CARRIERS)
+_reg("roots:query-renamed", p_roots_query_renamed, post=True, extra=ROOT_CARRIERS)
+_reg("roots:nonroot-named", p_roots_nonroot_named, post=True, extra=ROOT_CARRIERS)
+_reg("roots:swapped", p_roots_swapped, post=True, extra=ROOT_CARRIERS)
 for _name in STRING_CONTENTS:
     _reg("str:" + _name, _f_string(_name), extra=STRING_CARRIERS)
 for _form in EXTRA_DESCRIPTIONS:
@@ -569,8 +662,8 @@ def base_sm():
 
 
 def compatible(features):
-    """At most one description form (a second one would just overwrite the first)."""
-    return sum(1 for f in features if f.startswith("desc:")) <= 1
+    """At most one description form (a second one would just overwrite the first) and one root-name feature."""
+    return sum(1 for f in features if f.startswith("desc:")) <= 1 and sum(1 for f in features if f.startswith("roots:") or f == "schema:names") <= 1
 
 
 def build_sm(features):
